@@ -215,7 +215,27 @@ static void one_case(uint64_t caseseed, int merge_style, long unit, long idx)
 	if (prepare_blocks(S, m, &r)) { rep_viol("interference:setup", "reference encoding failed"); free_scripts(S, m); rep_case_done(0, 0, 1); return; }
 	char path[200]; snprintf(path, sizeof path, "c12blocks.%d.%ld.%ld", (int)getpid(), unit, idx);
 	write_blocks(path, S, m);
-	/* (a) interleaved in this process, which already has a long history of other sessions */
+	/* (a) each script alone in a fresh process — first, so that a library that dies even alone is told apart from interference */
+	char cmd[900], exe[400]; ssize_t n = readlink("/proc/self/exe", exe, sizeof exe - 1); if (n <= 0) rep_fatal("C12: readlink"); exe[n] = 0;
+	snprintf(cmd, sizeof cmd, "OFH_CUR= OFH_CHILD='%llu %s' ASAN_OPTIONS=detect_leaks=0 '%s' C12child 2>/dev/null", (unsigned long long)caseseed, path, exe);
+	FILE *f = popen(cmd, "r"); if (!f) rep_fatal("C12: popen");
+	memset(R, 0, sizeof R);
+	char line[400]; int died = 0;
+	while (fgets(line, sizeof line, f)) {
+		int si, j, call, st, cp; unsigned long long a, b, c;
+		if (sscanf(line, "N\tLOG %d %d %d %d %d %llx %llx %llx", &si, &j, &call, &st, &cp, &a, &b, &c) == 8 && si >= 0 && si < m && j >= 0 && j < (int)(sizeof R[0].log / sizeof R[0].log[0])) {
+			obs_t *o = &R[si].log[j]; o->call = call; o->status = st; o->complete = cp; o->outh = a; o->tabh = b; o->cbh = c; if (j + 1 > R[si].nlog) R[si].nlog = j + 1;
+		} else if (!strncmp(line, "N\tLOGDIED", 9)) died = 1;
+	}
+	pclose(f); unlink(path);
+	if (died) {
+		/* crash policy (DESIGN.md 3.3): when the solo replay dies, the case says nothing about independence */
+		rep_inconclusive("the solo replay of a script died; not an independence question (see the C07 check)");
+		rep_count("cases_skipped_because_the_solo_run_died", 1);
+		free_scripts(S, m); rep_case_done(0, 0, 1); return;
+	}
+
+	/* (b) interleaved in this process, which already has a long history of other sessions */
 	uint64_t order_hash = 7; int total = 0, done = 0, rr = 0; int block = 1 + (int)rng_below(&r, 4);
 	for (int i = 0; i < m; i++) total += S[i].nsteps;
 	int pairs[8][8]; memset(pairs, 0, sizeof pairs); int last = -1;
@@ -232,19 +252,7 @@ static void one_case(uint64_t caseseed, int merge_style, long unit, long idx)
 		last = i;
 	}
 	for (int a = 0; a < 8; a++) for (int b = 0; b < 8; b++) if (pairs[a][b]) { char nm[64]; snprintf(nm, sizeof nm, "adjacent_codec_pair_%d_%d", a, b); rep_count(nm, 1); }
-	/* (b) each script alone in a fresh process */
-	char cmd[900], exe[400]; ssize_t n = readlink("/proc/self/exe", exe, sizeof exe - 1); if (n <= 0) rep_fatal("C12: readlink"); exe[n] = 0;
-	snprintf(cmd, sizeof cmd, "OFH_CUR= OFH_CHILD='%llu %s' ASAN_OPTIONS=detect_leaks=0 '%s' C12child 2>/dev/null", (unsigned long long)caseseed, path, exe);
-	FILE *f = popen(cmd, "r"); if (!f) rep_fatal("C12: popen");
-	memset(R, 0, sizeof R);
-	char line[400]; int died = 0;
-	while (fgets(line, sizeof line, f)) {
-		int si, j, call, st, cp; unsigned long long a, b, c;
-		if (sscanf(line, "N\tLOG %d %d %d %d %d %llx %llx %llx", &si, &j, &call, &st, &cp, &a, &b, &c) == 8 && si >= 0 && si < m && j >= 0 && j < (int)(sizeof R[0].log / sizeof R[0].log[0])) {
-			obs_t *o = &R[si].log[j]; o->call = call; o->status = st; o->complete = cp; o->outh = a; o->tabh = b; o->cbh = c; if (j + 1 > R[si].nlog) R[si].nlog = j + 1;
-		} else if (!strncmp(line, "N\tLOGDIED", 9)) died = 1;
-	}
-	pclose(f); unlink(path);
+
 	int nontrivial = 0;
 	for (int i = 0; i < m; i++) {
 		script_t *s = &S[i]; char key[160];
